@@ -26,10 +26,10 @@ package main
 
 import (
 	"fmt"
-	"os"
 	"go/ast"
 	"go/token"
 	"go/types"
+	"os"
 
 	"golang.org/x/tools/go/packages"
 )
